@@ -1,2 +1,13 @@
 """Named predicates over shrunk replay cases, used by known_findings.json."""
-PREDS = {}
+
+
+def _v2_single_char_forward(toks, r):
+    # algo v2 <scheme> <cs> <norm> <fwd> <withPos> <slab> <repr> <text> <pattern>
+    return len(toks) >= 11 and toks[5] == '1' and ',' not in toks[10] and toks[10] not in ('-', '')
+
+
+def _pure_v2(toks, r):
+    return len(toks) >= 3 and toks[2] == 'v2'
+
+
+PREDS = {'v2_single_char_forward': _v2_single_char_forward, 'pure_v2': _pure_v2}
